@@ -154,7 +154,7 @@ Definition from_prop (c : list Z * outcome Z) : bool :=
                     else if e <=? 12 then v * 10 ^ (e + 6) <=? MaxInt64 else false
                   else false in
       match o with
-      | Ok w => fits && (w =? (if v =? 0 then 0 else v * 10 ^ (e + 6)))
+      | Ok w => if fits then w =? (if v =? 0 then 0 else v * 10 ^ (e + 6)) else false
       | Err e' => negb fits &&
                   existsb (String.eqb e') ["ErrNegativeValue"; "ErrTooManyDecimals"; "ErrTooLarge"]%string
       end
